@@ -252,9 +252,14 @@ fn no_mult() -> BoxedStrategy<f64> {
 /// is_normal() or EPSILON hidden in a guard show up only here. CCI is left out: 0.015*MAD itself would be
 /// a coarse subnormal, so its documented formula is not evaluable to the stated tolerance there.
 /// prices in an enormous unit (1e304 .. 5e307): x*100 overflows although every documented value is an
-/// ordinary number; scalar oscillators only (money flows and typical-price sums would overflow by definition)
+/// ordinary number; MFI and CCI are left out (price x volume, and the sum of n typical prices, exceed f64::MAX by definition)
 fn huge_strategy() -> BoxedStrategy<Case> {
-    cfg_among(&SK, 64, no_mult).prop_flat_map(|cfg| { let n = cfg.n(); (Just(cfg), stream(Domain::Huge, 1, 4 * n + 60)) }).prop_map(|(cfg, s)| Case { cfg, scalar: true, xs: xs(&s.vals), bars: vec![], stride: 0 }).boxed()
+    const HB: [Kind; 3] = [Kind::FastStoch, Kind::SlowStoch, Kind::Obv];
+    prop_oneof![
+        3 => cfg_among(&SK, 64, no_mult).prop_flat_map(|cfg| { let n = cfg.n(); (Just(cfg), stream(Domain::Huge, 1, 4 * n + 60)) }).prop_map(|(cfg, s)| Case { cfg, scalar: true, xs: xs(&s.vals), bars: vec![], stride: 0 }),
+        1 => cfg_among(&HB, 64, no_mult).prop_flat_map(|cfg| { let n = cfg.n(); (Just(cfg), bar_stream_dom(Domain::Huge, 1, 4 * n + 60)) }).prop_map(|(cfg, s)| Case { cfg, scalar: false, xs: vec![], bars: s.bars, stride: 0 }),
+    ]
+    .boxed()
 }
 
 const TSK: [Kind; 5] = [Kind::FastStoch, Kind::SlowStoch, Kind::Roc, Kind::Er, Kind::Ppo];
